@@ -41,9 +41,9 @@ type atom struct {
 	needs  []*atom
 	object bool   // member of the object family (assembled into a package of its own)
 	group  string // object family: the position class, for the attribution of a failure common to a whole group
-	// withheld: the unit fails on the unchanged tree and awaits a decision; it is
-	// enumerated only when VERIF_C05_PENDING=1 (see objects.go)
-	pending string
+	// object family: what the unit's generated code does on the unchanged tree
+	// when that is a listed finding ("" otherwise)
+	known string
 }
 
 var scalars = []string{"bool", "int8", "uint8", "int16", "uint16", "int32", "uint32", "int64", "uint64", "float32", "float64", "str", "any"}
